@@ -122,6 +122,20 @@ void run_program(void* arg,int){
         double dot=c*e;
         R.hash=hash_doubles(&c[0],d*d,hash_doubles(&e[0],d*d)); R.hash=hash_doubles(&dot,1,R.hash);
       },0);
+    }else if(op=="factory"){
+      R.rc=lib_call([&]{
+        unsigned i0=(unsigned)vr.below(d),k0=(unsigned)vr.below(d*d);
+        squids::SU_vector r=squids::SU_vector::Projector(d,i0)+squids::SU_vector::Generator(d,k0)*vr.uniform(-1,1);
+        r+=squids::SU_vector::Identity(d)*0.5;
+        r-=squids::SU_vector::PosProjector(d,i0)*0.25;
+        r+=squids::SU_vector::NegProjector(d,i0)*0.125;
+        squids::SU_vector re=r.Real(),im=r.Imag();
+        squids::Const p; for(unsigned j=1;j<d;j++) for(unsigned i2=0;i2<j;i2++){ p.SetMixingAngle(i2,j,0.05*(i2+2*j+1)); p.SetPhase(i2,j,0.03*(j+1)); }
+        auto U=p.GetTransformationMatrix(d);
+        squids::SU_vector rot=r.Rotate(U.get());
+        std::vector<double> comps=rot.GetComponents();
+        R.hash=hash_doubles(&comps[0],comps.size(),hash_doubles(&re[0],d*d,hash_doubles(&im[0],d*d)));
+      },0);
     }else if(op=="burst"){
       R.rc=lib_call([&]{ std::vector<squids::SU_vector> pool; pool.reserve(36); for(int k=0;k<34;k++) pool.emplace_back(d); pool.clear(); },0);
     }else if(op=="matfun"){
@@ -253,7 +267,7 @@ struct ThreadEngine: Engine{
     for(int e=0;e<total;e++){
       int t=(int)r.below(nt); if(progs[t].size()>=12) continue;
       Json o=Json::object(); o["vs"]=(long long)r.below(100000000); o["d"]=same_dim?same_dim:r.range(2,6);
-      int k=(int)r.weighted({18,18,12,10,12,8,18,4});
+      int k=(int)r.weighted({18,18,12,10,12,8,18,4,12});
       if(k==5 && !pending.empty()){ // receive a pending message sent by another thread
         size_t pick=r.below(pending.size()); if(pending[pick].second==t){ k=0; } else { o["op"]="recv"; o["msg"]=pending[pick].first; o["keep"]=r.chance(0.3); pending.erase(pending.begin()+pick); progs[t].push(o); continue; }
       }
@@ -264,7 +278,8 @@ struct ThreadEngine: Engine{
         case 3: o["op"]="utv"; o["norm"]=r.uniform(-3,3); break;
         case 4: case 5: o["op"]="send"; o["msg"]=nextmsg; pending.push_back(std::make_pair(nextmsg,t)); nextmsg++; break;
         case 6: o["op"]="expect"; o["kind"]=(int)r.below(5); o["irho"]=(int)r.below(2); o["x"]=r.uniform(0,1); o["ix"]=(int)r.below(3); break;
-        default: o["op"]="burst"; break;
+        case 7: o["op"]="burst"; break;
+        default: o["op"]="factory"; break;
       }
       progs[t].push(o);
     }
